@@ -38,3 +38,4 @@ def run(ctx):
     # the horizon within which events run is what the replication reports as its end time (shared rule with C03 / C06 / C11)
     ctx.uses('experiment')
     S.replication_frame(ctx, 'R2.9')
+    S.plain_number_tests(ctx, 'R2.10')
